@@ -54,8 +54,8 @@ def ensure_generated(force=False):
     content differs, so that an unchanged table does not trigger a rebuild."""
     gdir = os.path.join(COQ, "theories", "Generated")
     os.makedirs(gdir, exist_ok=True)
-    target = os.path.join(gdir, "ObservedSendable.v")
-    if os.path.exists(target) and not force:
+    targets = [os.path.join(gdir, f) for f in ("ObservedSendable.v", "ObservedProps.v")]
+    if all(os.path.exists(t) for t in targets) and not force:
         return
     if not os.path.exists(HARNESS_BIN):
         ok, out = build_harness()
